@@ -2,6 +2,7 @@ SPECIFICATION Spec
 CONSTANTS
   SharedField = "none"
   MemoBound = TRUE
+  SampleKinds = FALSE
   MaxHist = 7
 INVARIANT Memo
 CHECK_DEADLOCK FALSE
